@@ -282,7 +282,7 @@ inline Pool standard_pool(bool with_weak = false, bool with_offmenu = false) {
   p.keys.push_back(oct_key("oct32b", 32, 7)); p.keys.push_back(oct_key("oct64b", 64, 7)); p.keys.push_back(oct_key("oct77", 77));
   for (const char *n : {"rsa_2048", "rsa_2048b", "rsa_3072", "rsa_4096", "ec_p256", "ec_p256b", "ec_p384", "ec_p384b", "ec_p521", "ec_p521b", "ec_k256", "ec_k256b", "ed25519", "ed25519b", "ed448", "ed448b"})
     p.keys.push_back(load_fixture(n));
-  if (with_weak) for (const char *n : {"rsa_512", "rsa_1024", "rsa_1536", "rsa_2040", "rsa_2047", "rsa_2049", "rsa_2056"}) p.keys.push_back(load_fixture(n));
+  if (with_weak) for (const char *n : {"rsa_512", "rsa_1024", "rsa_1536", "rsa_2040", "rsa_2047", "rsa_2050", "rsa_2056"}) p.keys.push_back(load_fixture(n));
   if (with_offmenu) for (const char *n : {"ec_p224", "ec_bp256", "ec_bp384"}) p.keys.push_back(load_fixture(n));
   return p;
 }
